@@ -1722,6 +1722,7 @@ func runLtsSrv(ctx *Ctx) {
 	seenLine := map[string]bool{}
 	points := map[string]int{}
 	unresolved := 0
+	ctx.Add("# lts.srv positive-control", controlVerdict(results), false, "C08")
 	for _, jr := range results {
 		if jr != nil && jr.res != nil {
 			for k, n := range jr.res.Points {
@@ -1826,6 +1827,16 @@ func runLtsSrv(ctx *Ctx) {
 	if unresolved != 0 {
 		ctx.Res.Fail(fmt.Sprintf("%d yield points passed an object that could not be mapped to a harness connection", unresolved))
 	}
+}
+
+// controlVerdict: did the positive control (selfTest) of every child process pass.
+func controlVerdict(results map[int]*jobResult) string {
+	for _, jr := range results {
+		if jr != nil && jr.res != nil && strings.HasPrefix(jr.res.Error, "POSITIVE CONTROL FAILED") {
+			return "failed"
+		}
+	}
+	return "ok"
 }
 
 // replayExtraJobs: `# iso block=…,n=…[,tls=1]` and `# tls kind=…,var=…` lines.
@@ -2061,16 +2072,31 @@ func runSrvJob(job *ltsJob) *ltsRes {
 		select {
 		case <-w.acceptReached:
 			res.count("server.held:accept")
-			callShutdown()
-			if sc.Seed%2 == 0 {
+			switch sc.Seed % 3 {
+			case 0:
+				callShutdown()
 				<-shutdownDone // Shutdown runs to completion while the accept loop is held
-			} else {
+			case 1:
+				callShutdown()
 				time.Sleep(time.Duration(r.Intn(2000)) * time.Microsecond)
+			default:
+				// the accept loop and Shutdown start at the same moment: registration of the
+				// connection (lock, wg.Add, go handleConn and its first statements) races with
+				// Shutdown's lock / Wait
+				close(w.acceptRelease)
+				for spin := r.Intn(400); spin > 0; spin-- {
+					runtime.Gosched()
+				}
+				callShutdown()
 			}
 		case <-time.After(700 * time.Millisecond):
 			callShutdown()
 		}
-		close(w.acceptRelease)
+		select {
+		case <-w.acceptRelease:
+		default:
+			close(w.acceptRelease)
+		}
 	case sc.Sd == "handler":
 		select {
 		case <-w.handlerBegun:
@@ -2297,6 +2323,10 @@ func genSrvScenarios(ctx *Ctx) []*srvScen {
 			}
 		}
 	}
+	// registration racing with Shutdown (seed % 3 == 2: both released at the same moment)
+	for rep := 0; rep < ctx.N(40, 300); rep++ {
+		out = append(out, &srvScen{N: 1 + rep%2, Kind: rng.Pick(ctx.R, []string{"i", "r", "r", "f"}), Sd: "accept" + strconv.Itoa(1+rep%2), Seed: uint64(3*rep + 2)})
+	}
 	// waiting handlers, clients that do not read their response: each takes the 3 s grace period
 	ws := []*srvScen{{N: 1, Kind: "w", Sd: "handler"}, {N: 2, Kind: "w", Sd: "quiet"}, {N: 1, Kind: "n", Sd: "quiet"}}
 	if ctx.Thor {
@@ -2356,6 +2386,7 @@ func runLtsServer(ctx *Ctx) {
 	seen := map[string]bool{}
 	points := map[string]int{}
 	unresolved := 0
+	ctx.Add("# lts.server positive-control", controlVerdict(results), false, "C16")
 	for _, jr := range results {
 		if jr != nil && jr.res != nil {
 			for k, n := range jr.res.Points {
